@@ -80,6 +80,37 @@ Theorem C14_identity_reads_the_identity_attributes :
 Proof. exact case_reads_are_the_identity_attributes. Qed.
 Print Assumptions C14_identity_reads_the_identity_attributes.
 
+(* the verdict of every relation filter / dsl native is the xtypes relation of the types go/types RECORDED for the captures
+   (typeofNode of the capture's node = types.Unalias of Types.TypeOf) and of what the filter was built with -- nothing is applied
+   in between (no types.Default, no extra Underlying(), no second lookup) *)
+Theorem C14_filters_relate_the_recorded_types :
+  rows_of "makeTypesIdenticalFilter" "xtypes.Identical" = [[recorded (capture "lhsVarname"); recorded (capture "rhsVarname")]] /\
+  rows_of "makeTypeImplementsFilter" "xtypes.Implements" = [[recorded "x"; "iface"]; [recorded (capture_expr "varname"); "iface"]] /\
+  rows_of "makeTypeHasMethodFilter" "typeHasMethod" = [[recorded (capture "varname"); "fn"]] /\
+  rows_of "makeTypeIsFilter" "Pattern.MatchIdentical" =
+    [["params.typematchState"; recorded "x" ++ ".Underlying()"]; ["params.typematchState"; recorded (capture "varname") ++ ".Underlying()"];
+     ["params.typematchState"; recorded "x"]; ["params.typematchState"; recorded (capture "varname")]] /\
+  rows_of "dslTypesPackage.Implements" "xtypes.Implements" = [["pop2:stack.Pop().(types.Type)"; "pop1:stack.Pop().(*types.Interface)"]] /\
+  rows_of "dslTypesPackage.Identical" "xtypes.Identical" = [["pop2:stack.Pop().(types.Type)"; "pop1:stack.Pop().(types.Type)"]] /\
+  sources_of "filterParams.typeofNode" = ["types.Unalias(params.ctx.Types.TypeOf(<e: assigned more than once>))"; "invalidType"].
+Proof.
+  exact (conj identical_to_relates_the_recorded_types (conj implements_relates_the_recorded_type_and_the_loaded_interface
+          (conj (proj1 has_method_asks_the_recorded_type) (conj type_is_matches_the_recorded_type
+          (conj (proj1 natives_relate_the_two_popped_values) (conj (proj1 (proj2 natives_relate_the_two_popped_values))
+          typeof_node_is_the_recorded_type)))))).
+Qed.
+Print Assumptions C14_filters_relate_the_recorded_types.
+
+(* a fully-qualified name is looked up in the package whose import path is EXACTLY the text before its last dot: among the
+   dependencies of the analysed package by path equality, else through the importer with that path *)
+Theorem C14_fqn_lookup_is_by_exact_path :
+  rows_of "engineState.FindType" "lookupType" =
+    [["findDependency(currentPkg, " ++ fqn_path ++ ")"; fqn_path; fqn_name]; ["importer.Import(" ++ fqn_path ++ ")"; fqn_path; fqn_name]] /\
+  sources_of "findDependency:if" =
+    ["pkg.Path() == path"; "findDependency(imported, path) != nil && findDependency(imported, path).Complete()"].
+Proof. exact (conj (proj1 (proj2 find_type_resolves_by_exact_path)) (proj2 (proj2 (proj2 (proj2 find_type_resolves_by_exact_path))))). Qed.
+Print Assumptions C14_fqn_lookup_is_by_exact_path.
+
 (* recorded finding (known_findings.d/C14.json: tparam-cross-universe): completeness fails for type parameters *)
 Theorem C14_tparam_cross_universe_refuted :
   exists a b, wf a = true /\ wf b = true /\ x_spec a b /\ identical_x a b = false.
